@@ -29,19 +29,19 @@ CHECKS = {
    "values outside the boundary alphabets; only queries that pass Validate(); NaN not stored",
    "explicit-state BFS over write histories + exhaustive query-space enumeration vs reference evaluation", "DESIGN.md §4 C02"),
  "C04": (True, "seqx", "model_checking",
-   "Breadth-first search to depth 3 (thorough 4) over write histories on a flat index for 10 (thorough 16) metric/quantiser combinations (none, binary fixed/learned, product 2x2) x 4 cache states (warm, reopened cold before every query, disabled, 1-byte limit); after every batch 4 queries x limits x weights x pre-filters must return exactly the k nearest admissible points under a float64 definition of the index distance (learned thresholds, product-quantiser centroids and centroid ids read back from the bucket and checked for consistency with the written vectors), ties at the cut either way.",
+   "Breadth-first search to depth 3 (thorough 4) over write histories on a flat index for 10 (thorough 16) metric/quantiser combinations (none, binary fixed/learned, product 2x2) x 4 cache states (warm, reopened cold before every query, disabled, 1-byte limit); after every batch 4 queries x limits x weights x pre-filters must return exactly the k nearest admissible points under a float64 definition of the index distance (learned thresholds, product-quantiser centroids and centroid ids read back from the bucket and checked for consistency with the written vectors), ties at the cut either way. Plus, per euclidean combination, an alphabet with three batches whose commit fails after the index work, and per quantiser a history that fills the cache from the file (reopen, queries) and then writes on; the storage proxy overwrites what it handed out when a transaction ends (a slice kept beyond its transaction reads poison).",
    "product quantiser trained at 3 points (HTTP layer minimum is 1000; same code path); vectors from small per-metric pools; float32 tolerance",
    "explicit-state BFS over write histories x configurations vs brute-force k-NN reference", "DESIGN.md §4 C04"),
  "C05": (True, "seqx", "model_checking",
-   "Breadth-first search to depth 3 (thorough 5, de-duplicated on the full bucket contents) over histories that insert, rewrite, blank out, remove and delete text fields (top-level and nested), from the empty and from a 6-document corpus, on warm, reopened and in-memory instances; after every batch ~500 text queries are compared with a brute-force tf-idf reference recomputed from the model (match set, scores, order, limit cut, hybrid score).",
+   "Breadth-first search to depth 3 (thorough 5, de-duplicated on the full bucket contents) over histories that insert, rewrite, blank out, remove and delete text fields (top-level and nested), from the empty and from a 6-document corpus, on warm, reopened and in-memory instances; after every batch ~500 text queries are compared with a brute-force tf-idf reference recomputed from the model (match set, scores, order, limit cut, hybrid score). Includes a batch that names one point twice (blanked both times).",
    "bleve's standard analyser is trusted; texts and queries from the stated alphabets",
    "explicit-state BFS over write histories vs brute-force tf-idf reference", "DESIGN.md §4 C05"),
  "C03": (True, "seqx", "model_checking",
-   "Every write history up to depth 3 (thorough 4) over an 11-symbol alphabet (no merging: the warm graph cache is state outside the buckets), from the empty shard and from 30 lattice points, for 6 (thorough 12) metric/quantiser combinations (incl. product quantiser) on warm and reopened instances; after every batch ~430 graph searches (queries x limits x search sizes x weights x 6 pre-filters) are checked for the safety clauses of the property against the model, and for exact k-NN in the two stated regimes; the persisted graph is checked too.",
+   "Every write history up to depth 3 (thorough 4) over an 11-symbol alphabet (no merging: the warm graph cache is state outside the buckets), from the empty shard and from 30 lattice points, for 6 (thorough 12) metric/quantiser combinations (incl. product quantiser) on warm and reopened instances; after every batch ~430 graph searches (queries x limits x search sizes x weights x 6 pre-filters) are checked for the safety clauses of the property against the model, and for exact k-NN in the two stated regimes; the persisted graph is checked too. Each combination also has a small alphabet with three batches whose storage transaction fails to commit after the graph work is done (the warm answers must stay those of the committed state); the storage proxy overwrites every key / value it handed out when the transaction ends, so a slice kept beyond its transaction reads poison.",
    "random entry vector: oracles are shape independent; product quantiser trained at 3 points (HTTP layer minimum is 1000); vectors from small pools",
    "exhaustive enumeration of write histories of the real code vs reference (safety + brute-force k-NN in the exact regimes)", "DESIGN.md §4 C03"),
  "C10": (True, "seqx", "model_checking",
-   "Every write history up to depth 4 (thorough 5) over 12 graph-hurting batches, and up to depth 2 (thorough 3) from 40 mutually equidistant points where the degree bound binds, for alpha {1.1,1.5} x degreeBound {32,64}, warm and reopened; after every batch the bucket dump is checked for node/vector/edge well-formedness, degree bound, max-id, point-store bijection and free-list disjointness, plus a full-window search.",
+   "Every write history up to depth 4 (thorough 5) over 12 graph-hurting batches, and up to depth 2 (thorough 3) from 40 mutually equidistant points where the degree bound binds, for alpha {1.1,1.5} x degreeBound {32,64}, warm and reopened; after every batch the bucket dump is checked for node/vector/edge well-formedness, degree bound, max-id, point-store bijection and free-list disjointness, plus a full-window search. One alphabet per parameter set has three batches whose commit fails after the graph work is done.",
    "duplicate edges not flagged; batches outside the alphabet",
    "exhaustive enumeration of write histories of the real code with a structural invariant on the persisted state", "DESIGN.md §4 C10"),
  "C06": (True, "seqx-input", "model_checking",
@@ -61,7 +61,7 @@ CHECKS = {
    "Get cannot fail in the storage API; torn writes inside bbolt's own commit are trusted; goroutine interleavings inside a batch are those the real scheduler produced",
    "exhaustive enumeration of fault points and crash points of a write history on the real write path", "DESIGN.md §4 C07"),
  "C12": (True, "schedx", "model_checking",
-   "Stateless preemption-bounded search over all interleavings of requests, collection deletion and the idle timer on the real ShardManager with real bbolt shard files: shardmgr.go is built with its sync and time imports redirected to scheduler shims (cooperative locks; a virtual timer whose firing is a controller transition enabled at every scheduling point while armed); channel operations stay real and quiescence is a stop-the-world goroutine snapshot. Quick: 7 two-thread programs with <=1 preemption, 3 three-thread programs with 0 (81k complete executions); thorough: 28 programs, bounds 0..2. Invariants: callback only on a usable handle or a clean error, one descriptor per shard file, files present during a request, no deadlock, final probe loads every shard.",
+   "Stateless preemption-bounded search over all interleavings of requests, collection deletion and the idle timer on the real ShardManager with real bbolt shard files: shardmgr.go is built with its sync and time imports redirected to scheduler shims (cooperative locks; a virtual timer whose firing is a controller transition enabled at every scheduling point while armed); channel operations stay real and quiescence is a stop-the-world goroutine snapshot. Quick: 7 two-thread programs with <=1 preemption, 3 three-thread programs with 0 (81k complete executions); thorough: 28 programs, bounds 0..2. Invariants: callback only on a usable handle or a clean error, one descriptor per shard file, files present during a request, no deadlock, final probe loads every shard. Programs also include a shard whose database file cannot be opened until repaired, and an idle-unload backup that returns an error.",
    "timer fires only at quiescent points (cleanup goroutine in its select); Go>=1.23 timer contract; sequentially consistent lock shims",
    "stateless DFS over schedules of the real code under a controlled scheduler with a virtual timer, iterative preemption bounding", "DESIGN.md §4 C12"),
  "C09": (True, "schedx", "model_checking",
@@ -73,7 +73,7 @@ CHECKS = {
    "single server; the duplicate-id case is checked through the accounting equation of the statement only (ids unique per collection is the client's obligation)",
    "bounded-exhaustive input enumeration + explicit-state BFS over request histories vs reference", "DESIGN.md §4 C15"),
  "C16": (True, "seqx", "model_checking",
-   "Non-interference by lock-step differential execution: breadth-first search to depth 6 (thorough 8), de-duplicated on the complete inventory, over the product alphabet of two users (list; per collection create/get/delete/insert/insert3/update/search/filter-search/delete-point) on one real node through the assembled HTTP handler chain, for 15 user-id pairs (prefixes, key-concatenation collisions, '.', '..', space, percent, backslash, non-ASCII, trailing space, images of one another under name normalisations, escaped '../' collection ids); each user's sub-history runs alone on its own node and every response (status + canonical body) of the shared run must equal the solitary one; the shard-file inventory of the shared node must equal the union of the solitary ones.",
+   "Non-interference by lock-step differential execution: breadth-first search to depth 6 (thorough 8), de-duplicated on the complete inventory, over the product alphabet of two users (list; per collection create/get/delete/insert/insert3/update/search/filter-search/delete-point) on one real node through the assembled HTTP handler chain, for 15 user-id pairs (prefixes, key-concatenation collisions, '.', '..', space, percent, backslash, non-ASCII, trailing space, images of one another under name normalisations, escaped '../' collection ids); each user's sub-history runs alone on its own node and every response (status + canonical body) of the shared run must equal the solitary one; the shard-file inventory of the shared node must equal the union of the solitary ones. User-id pairs include glob patterns matching the other id and a pair in which each user has a collection named like the other user's id.",
    "whole requests are the unit of interleaving (node-database writes are serialised by bbolt); user ids without '/'",
    "explicit-state BFS over interleaved two-tenant histories of the real handlers with a differential (non-interference) oracle", "DESIGN.md §4 C16"),
  "C17": (True, "seqx", "model_checking",
